@@ -172,5 +172,25 @@ Theorem C05_haissinski_log_form :
 Proof. exact haissinski_log_form_unit. Qed.
 Print Assumptions C05_haissinski_log_form.
 
+(** the direction the property is worded in: a stationary density rh(q)*exp(-p^2/2) (energy
+    distribution the unit Gaussian) with differentiable positive profile satisfies the Haissinski
+    equation: ln rh + kappa q^2/2 - (1/dtheta) Int W is the same at every q *)
+Theorem C05_haissinski_necessary :
+  forall (W Iw rh drh : R -> R) (dth kappa beta : R),
+    (forall q, is_derive Iw q (W q)) -> dth <> 0%R ->
+    (forall q, is_derive rh q (drh q)) -> (forall q, (0 < rh q)%R) ->
+    (forall q p, VFP kappa (fun q => W q / dth)%R beta (psi_of rh) q p = 0%R) ->
+    forall q, (ln (rh q) + kappa * q ^ 2 / 2 - Iw q / dth = ln (rh 0) + kappa * 0 ^ 2 / 2 - Iw 0 / dth)%R.
+Proof. exact haissinski_necessary. Qed.
+Print Assumptions C05_haissinski_necessary.
+
+Example C05_haissinski_necessary_hypotheses :
+  let W := fun q : R => q in let Iw := fun q : R => (q * q / 2)%R in
+  let rh := rho Iw 1 1 1 in
+  (forall q, is_derive Iw q (W q)) /\ (forall q, (0 < rh q)%R) /\
+  (forall q, is_derive rh q ((- 1 * q + W q / 1) * rh q)%R) /\
+  (forall q p, VFP 1 (fun q => W q / 1)%R 0 (psi_of rh) q p = 0%R).
+Proof. exact necessary_hypotheses_satisfiable. Qed.
+
 Example C05_haissinski_hypotheses : forall q : R, is_derive (fun q => (q * q / 2)%R) q q.
 Proof. exact example_antiderivative. Qed.
